@@ -22,13 +22,16 @@ TEMPLATE-MATCHED, statement by statement (no hole, or only the holes named above
     SpectrumError re-raised;
   * demuxed_spectral_information (is_in_band on frequency and slot width, select_channels when any, else None) and
     muxed_spectral_information (first + mux(rest), singleton, ValueError);
-  * Transceiver._calc_snr and update_snr (every reported figure restarts from its raw value, same snr_added).
+  * Transceiver._calc_snr and update_snr (every reported figure restarts from its raw value, same snr_added);
+  * Multiband_amplifier.__call__ and Edfa.__call__ (templates imported from harness/pygen_c07.py: per amplifier demux on
+    its own band, `if si:` skips exactly the empty result, amplify, mux of all outputs).
 """
 import ast
 import os
 
 from . import common
 from .pygen import Unsupported, dotted, unify, strip_doc, match_template
+from .pygen_c07 import MULTI_CALL_TEMPLATE, EDFA_CALL_TEMPLATE
 
 INFO = 'gnpy/core/info.py'
 ELEMENTS = 'gnpy/core/elements.py'
@@ -383,6 +386,11 @@ def generate(repo=None):
                    'Transceiver._calc_snr')
     fn = defs(etree, 'Transceiver', 'update_snr')[0]        # (*args: not a plain parameter list)
     match_template(UPDATE_SNR_TEMPLATE, strip_doc(fn.body), 'Transceiver.update_snr')
+    # band split -> per-band amplifier -> merge (templates shared with harness/pygen_c07.py): each amplifier demuxes ITS band,
+    # exactly the empty result is skipped, every other band is amplified and all outputs are merged
+    match_template(MULTI_CALL_TEMPLATE, strip_doc(one(etree, 'Multiband_amplifier', '__call__').body),
+                   'Multiband_amplifier.__call__')
+    match_template(EDFA_CALL_TEMPLATE, strip_doc(one(etree, 'Edfa', '__call__').body), 'Edfa.__call__')
     match_template(SNR_SUM_TEMPLATE, strip_doc(defs(utree, None, 'snr_sum')[0].body), 'utils.snr_sum')
     return '\n'.join(out)
 
